@@ -66,10 +66,8 @@ theorem eq_across_meaning_and_class (retired : String → String → Option Stri
     (d : DS) (hd : mkConcept v s m' ver = .ok d) :
     objEq retired (.code ⟨some v, some s, some m, ver⟩) (.concept d) = .ok true ∧
     objEq retired (.concept d) (.code ⟨some v, some s, some m, ver⟩) = .ok true := by
-  rw [mkConcept_spec] at hd
-  split at hd
-  · cases hd
-  · cases hd
+  obtain ⟨_, _, rfl⟩ := mkConcept_ok v s m' ver d hd
+  · skip
     have hw : (Obj.concept (builtDS (stdKeyword v) v s m' ver)).wf := builtDS_wf _ v s m' ver (stdKeyword_cases v)
     have hc : (Obj.code ⟨some v, some s, some m, ver⟩).wf := by simp [Obj.wf]
     have hk : key retired (.code ⟨some v, some s, some m, ver⟩) = key retired (.concept (builtDS (stdKeyword v) v s m' ver)) := by
@@ -143,15 +141,36 @@ theorem set_treats_as_one (h : String → Int) (retired : String → String → 
 
 /-! ## value attribute -/
 
-/-- the constructor refuses exactly the meanings of more than 64 characters -/
+/-- the constructor refuses exactly the meanings of more than 64 characters and the arguments that
+contain a backslash (pydicom would split them at the value delimiter into a MultiValue that cannot be read
+back); both refusals are ValueErrors -/
 theorem ctor_total (v s m : String) (ver : Option String) :
-    (m.length ≤ 64 → ∃ d, mkConcept v s m ver = .ok d) ∧ (m.length > 64 → mkConcept v s m ver = .error .value) := by
+    ((∃ d, mkConcept v s m ver = .ok d) ↔ (anyBackslash v s m ver = false ∧ m.length ≤ 64)) ∧
+    ((anyBackslash v s m ver = true ∨ m.length > 64) → mkConcept v s m ver = .error .value) := by
   rw [mkConcept_spec]
   constructor
-  · intro h
-    have : ¬ m.length > 64 := by omega
-    simp [this]
-  · intro h; simp [h]
+  · constructor
+    · rintro ⟨d, hd⟩
+      by_cases hb : anyBackslash v s m ver = true
+      · simp [hb] at hd
+      · by_cases hm : m.length > 64
+        · simp [hb, hm] at hd
+        · exact ⟨by simpa using hb, by omega⟩
+    · rintro ⟨hb, hm⟩
+      have : ¬ m.length > 64 := by omega
+      simp [hb, this]
+  · rintro (hb | hm)
+    · simp [hb]
+    · by_cases hb : anyBackslash v s m ver = true <;> simp [hb, hm]
+
+/-- a backslash in the value, the scheme designator, the meaning or a given scheme version is refused -/
+theorem ctor_rejects_backslash (v s m : String) (ver : Option String)
+    (h : hasBackslash v = true ∨ hasBackslash s = true ∨ hasBackslash m = true ∨ ∃ x, ver = some x ∧ hasBackslash x = true) :
+    mkConcept v s m ver = .error .value := by
+  apply (ctor_total v s m ver).2
+  left
+  unfold anyBackslash
+  rcases h with h | h | h | ⟨x, rfl, h⟩ <;> simp [h, optHasBackslash]
 
 /-- **the value is stored in the attribute the standard assigns to its form and length, and read back
 unchanged**: URN/URL → `URNCodeValue`; otherwise ≤ 16 characters → `CodeValue`, longer → `LongCodeValue`;
@@ -162,18 +181,22 @@ theorem value_attribute_roundtrip (v s m : String) (ver : Option String) (d : DS
     (∀ kw ∈ ["CodeValue", "LongCodeValue", "URNCodeValue"], kw ≠ stdKeyword v → DS.get d kw = none) ∧
     prop d "value" = .ok (some v) ∧ prop d "meaning" = .ok (some m) ∧
     prop d "scheme_designator" = .ok (some s) ∧ prop d "scheme_version" = .ok ver := by
-  rw [mkConcept_spec] at hd
-  split at hd
-  · cases hd
-  · cases hd
-    rcases stdKeyword_cases v with h | h | h <;> rw [h] <;> cases ver <;>
-      simp [builtDS, DS.get, List.lookup, prop, valueLookup, firstPresent, propertyAttr]
+  obtain ⟨_, _, rfl⟩ := mkConcept_ok v s m ver d hd
+  rcases stdKeyword_cases v with h | h | h <;> rw [h] <;> cases ver <;>
+    simp [builtDS, DS.get, List.lookup, prop, valueLookup, firstPresent, propertyAttr]
+
+/-- the code's URN/URL test, built from the literals REGENERATED from the source, is the specification's test
+with its own literals (`"urn:"` case-insensitively per RFC 8141, `"://"`): changing a literal in the code
+breaks this theorem instead of moving the specification along -/
+theorem urn_test_is_specification (v : String) :
+    looksLikeUrn v = specIsUrn v ∧ urnPrefix = "urn:" ∧ urlMarker = "://" ∧ urnPrefixCaseInsensitive = true :=
+  ⟨looksLikeUrn_spec v, rfl, rfl, rfl⟩
 
 /-- the three cases of `stdKeyword`, spelled out (what "form and length" means) -/
 theorem value_attribute_by_form (v : String) :
-    (looksLikeUrn v = true → stdKeyword v = "URNCodeValue") ∧
-    (looksLikeUrn v = false → v.length ≤ 16 → stdKeyword v = "CodeValue") ∧
-    (looksLikeUrn v = false → v.length > 16 → stdKeyword v = "LongCodeValue") := by
+    (specIsUrn v = true → stdKeyword v = "URNCodeValue") ∧
+    (specIsUrn v = false → v.length ≤ 16 → stdKeyword v = "CodeValue") ∧
+    (specIsUrn v = false → v.length > 16 → stdKeyword v = "LongCodeValue") := by
   unfold stdKeyword
   refine ⟨fun h => by simp [h], fun h hl => by simp [h, hl], fun h hl => ?_⟩
   have : ¬ v.length ≤ 16 := by omega
@@ -182,11 +205,8 @@ theorem value_attribute_by_form (v : String) :
 /-- constructed concepts are well-formed -/
 theorem ctor_wf (v s m : String) (ver : Option String) (d : DS) (hd : mkConcept v s m ver = .ok d) :
     (Obj.concept d).wf := by
-  rw [mkConcept_spec] at hd
-  split at hd
-  · cases hd
-  · cases hd
-    exact builtDS_wf _ v s m ver (stdKeyword_cases v)
+  obtain ⟨_, _, rfl⟩ := mkConcept_ok v s m ver d hd
+  exact builtDS_wf _ v s m ver (stdKeyword_cases v)
 
 /-! ## conversion from datasets and codes -/
 
@@ -262,9 +282,10 @@ theorem from_dataset_wf (h : Heap) (ref : Nat) (copy : Bool) (cell : Cell) (hc :
     exact ⟨_, g, rfl, rfl, w⟩
 
 /-- `from_code` of a concept returns that very concept; of a `Code` it yields a well-formed concept that
-is equal to the code in both directions and hashes like it. -/
+is equal to the code in both directions and hashes like it (for codes the constructor accepts: meaning of
+at most 64 characters, no backslash). -/
 theorem from_code_spec (retired : String → String → Option String) (hf : String → Int) (v s m : String) (ver : Option String)
-    (hm : m.length ≤ 64) :
+    (hm : m.length ≤ 64) (hb : anyBackslash v s m ver = false) :
     (∀ d, fromCode (.concept d) = .ok (.concept d)) ∧
     ∃ d, fromCode (.code ⟨some v, some s, some m, ver⟩) = .ok (.concept d) ∧ (Obj.concept d).wf ∧
       objEq retired (.concept d) (.code ⟨some v, some s, some m, ver⟩) = .ok true ∧
@@ -272,7 +293,7 @@ theorem from_code_spec (retired : String → String → Option String) (hf : Str
       hashOf hf (.concept d) = hashOf hf (.code ⟨some v, some s, some m, ver⟩) := by
   constructor
   · intro d; simp [fromCode, fromCodeReturnsSame]
-  · obtain ⟨d, hd⟩ := (ctor_total v s m ver).1 hm
+  · obtain ⟨d, hd⟩ := (ctor_total v s m ver).1.mpr ⟨hb, hm⟩
     have hw := ctor_wf v s m ver d hd
     have hc : (Obj.code ⟨some v, some s, some m, ver⟩).wf := by simp [Obj.wf]
     obtain ⟨e1, e2⟩ := eq_across_meaning_and_class retired v s m m ver d hd
@@ -362,6 +383,10 @@ example : (Obj.code ⟨some "T-A0100", some "SRT", some "Brain", none⟩).wf := 
 example : mkConcept "12738006" "SCT" "Entire brain" none =
     .ok [("CodingSchemeDesignator", "SCT"), ("CodeMeaning", "Entire brain"), ("CodeValue", "12738006")] := by
   rw [mkConcept_spec]; decide
+/-- a backslash in the value or in the meaning is refused; an upper-case URN scheme name is a URN -/
+example : mkConcept "a\\b" "99X" "m" none = .error .value ∧ mkConcept "abc" "99X" "x\\y" none = .error .value ∧
+    stdKeyword "URN:oid:1.2" = "URNCodeValue" := by
+  refine ⟨by rw [mkConcept_spec]; decide, by rw [mkConcept_spec]; decide, by decide⟩
 /-- an alias pair across classes and meanings is equal in both directions … -/
 example : objEq exRetired (.code ⟨some "T-A0100", some "SRT", some "Brain", none⟩)
     (.concept [("CodingSchemeDesignator", "SCT"), ("CodeMeaning", "Entire brain"), ("CodeValue", "12738006")]) = .ok true ∧
